@@ -113,8 +113,12 @@ pub fn c02(a: &Args) -> Ctx {
             let _ = std::fs::remove_dir_all(&dir);
             // the map name contains a dot, and sibling maps whose names differ only behind the last dot are
             // updated in sessions of their own while the primary map is closed: it must come back unchanged
+            // one shard in four uses names of more than 140 bytes that agree in their first 139 bytes
+            let long = "n".repeat(139);
+            let (pname, sibs): (String, [String; 2]) = if a.shard % 4 == 1 { (format!("{long}A1"), [format!("{long}B2"), format!("{long}A")]) } else { ("m.v1".to_string(), ["m.v2".to_string(), "m".to_string()]) };
+            let pname = pname.as_str();
             let mut sib_model = Model::new();
-            let mut s = match Session::<K>::create(&dir, "m.v1", &h.cfg) {
+            let mut s = match Session::<K>::create(&dir, pname, &h.cfg) {
                 Ok(s) => s,
                 Err(e) => return Some(ctx.classify(finding(&["C07"], "create", 0, e))),
             };
@@ -125,8 +129,8 @@ pub fn c02(a: &Args) -> Ctx {
                 if i % 97 == 0 && s.extra.len() < 6 {
                     let m2 = match i % 3 {
                         0 => s.map.as_ref().unwrap().clone(),
-                        1 => K::open(s.db.as_ref().unwrap(), "m.v1", Cfg::small(64).params()).unwrap(),
-                        _ => K::open(&s.db.as_ref().unwrap().clone(), "m.v1", h.cfg.params()).unwrap(),
+                        1 => K::open(s.db.as_ref().unwrap(), pname, Cfg::small(64).params()).unwrap(),
+                        _ => K::open(&s.db.as_ref().unwrap().clone(), pname, h.cfg.params()).unwrap(),
                     };
                     s.extra.push(m2);
                     ctx.count("extra_handles_kept", 1);
@@ -154,16 +158,16 @@ pub fn c02(a: &Args) -> Ctx {
                             use abyssiniandb::DbXxx;
                             let db = abyssiniandb::open_file(&dir)?;
                             let mut ok = true;
-                            for nm in ["m.v2", "m"] {
+                            for (si, nm) in sibs.iter().enumerate() {
                                 let mut sib = K::open(&db, nm, Cfg::random(rng, false).params())?;
                                 for (k, v) in sib_model.iter() {
-                                    ok &= sib.get(&k[..])?.as_ref() == Some(v) || nm == "m";
+                                    ok &= sib.get(&k[..])?.as_ref() == Some(v) || si == 1;
                                 }
                                 for j in 0..4u32 {
                                     let k = K::make_key(rng, 6 + j as usize);
                                     let v = crate::util::gen_bytes(10 + 30 * j as usize, reopens as u32 + j, 0);
                                     sib.put(&k[..], &v)?;
-                                    if nm == "m.v2" {
+                                    if si == 0 {
                                         sib_model.insert(k, v);
                                     }
                                 }
@@ -192,12 +196,12 @@ pub fn c02(a: &Args) -> Ctx {
                         // all handles dropped; verify in a freshly spawned process with yet other parameters
                         s.close();
                         let other = Cfg::random(rng, false);
-                        match spawn_verify(a, &dir, "m.v1", K::NAME, &other, &s.model, &h.keys) {
+                        match spawn_verify(a, &dir, pname, K::NAME, &other, &s.model, &h.keys) {
                             Ok(()) => ctx.count("reopen.new_process", 1),
                             Err(m) if m.starts_with("HARNESS") => return Some(Stop::Harness(m)),
                             Err(m) => return Some(ctx.classify(finding(&["C02"], "reopen_new_process", i, format!("state dropped at call {i}, reopened with {}: {m}", other.text())))),
                         }
-                        if let Ok(img) = Image::read(&dir, "m.v1") {
+                        if let Ok(img) = Image::read(&dir, pname) {
                             ctx.digests.insert(img.digest());
                             if !s.model.is_empty() {
                                 ctx.nontrivial.insert(img.digest());
@@ -215,7 +219,7 @@ pub fn c02(a: &Args) -> Ctx {
                     if s.n_buckets != want {
                         return Some(ctx.classify(finding(&["C02", "C07"], "reopen_params", i, format!("table has {} buckets after reopening with {}, it was created with {} buckets", s.n_buckets, cfg.text(), want))));
                     }
-                    if let Ok(img) = Image::read(&dir, "m.v1") {
+                    if let Ok(img) = Image::read(&dir, pname) {
                         if img.htx.len() < 4_000_000 {
                             ctx.digests.insert(img.digest());
                             if !s.model.is_empty() {
@@ -228,7 +232,7 @@ pub fn c02(a: &Args) -> Ctx {
             // final drop + new process
             s.close();
             let other = Cfg::random(rng, false);
-            match spawn_verify(a, &dir, "m.v1", K::NAME, &other, &s.model, &h.keys) {
+            match spawn_verify(a, &dir, pname, K::NAME, &other, &s.model, &h.keys) {
                 Ok(()) => ctx.count("reopen.new_process", 1),
                 Err(m) if m.starts_with("HARNESS") => return Some(Stop::Harness(m)),
                 Err(m) => return Some(ctx.classify(finding(&["C02"], "reopen_new_process", h.ops.len(), format!("final state reopened with {}: {m}", other.text())))),
@@ -1033,6 +1037,84 @@ fn c14_exact_fit_history(rng: &mut Rng, n_table: u64, kt: &str) -> History {
     History { kt: kt.into(), cfg: default_bufs(Buckets::Size(n_table)), keys, ops, origin: format!("c14 batches over exact-fit collision chains, table {n_table}, {kt}") }
 }
 
+/// an empty map loaded by one `put_from_iter` of more than a thousand pairs in which keys repeat (the last pair of a
+/// key wins, exactly as with element-wise puts), then more batches
+fn c14_bulk_load_history(rng: &mut Rng, kt: &str, ed: &Edges) -> History {
+    let mut p = Profile::base(700, 0);
+    p.max_key = 40;
+    let mut gen = Gen::new(rng.next(), ed);
+    let keys = match kt {
+        "u64" => gen.keys::<abyssiniandb::DbU64>(&p),
+        "i64" => gen.keys::<abyssiniandb::DbI64>(&p),
+        "vu64" => gen.keys::<abyssiniandb::DbVu64>(&p),
+        "string" => gen.keys::<abyssiniandb::DbString>(&p),
+        _ => gen.keys::<DbBytes>(&p),
+    };
+    let n = keys.len();
+    let kind = if kt == "string" { 1 } else { 0 };
+    let mut ops = Vec::new();
+    let batch = |rng: &mut Rng, len: usize| -> Vec<(usize, ValSpec)> { (0..len).map(|j| (rng.below(n as u64) as usize, ValSpec { len: (j % 40) as u32, seed: rng.next() as u32, kind })).collect() };
+    let first = 1024 + rng.below(900) as usize;
+    ops.push(Op::PutIter(batch(rng, first)));
+    ops.push(Op::Len);
+    ops.push(Op::Iter(0, usize::MAX));
+    ops.push(Op::BulkDel((0..n).step_by(3).collect()));
+    ops.push(Op::PutIter(batch(rng, 1100)));
+    ops.push(Op::BulkGet((0..n).step_by(2).collect()));
+    ops.push(Op::Len);
+    History { kt: kt.into(), cfg: default_bufs(Buckets::Size(*rng.pick(&[1024u64, 64, 4096]))), keys, ops, origin: format!("c14 empty map loaded by one put_from_iter with repeated keys, {kt}") }
+}
+
+/// long keys (16 KiB and more) of equal length that differ only in their last bytes, all in one bucket chain
+fn c14_long_tail_history(rng: &mut Rng, kt: &str) -> History {
+    let mut keys: Vec<Vec<u8>> = Vec::new();
+    for (j, len) in [16384usize, 16384 + 5, 16384 + 300, 32768, 40000, 20000].into_iter().enumerate() {
+        let base = crate::util::gen_bytes(len, 77 + j as u32, if kt == "string" { 1 } else { 0 });
+        keys.push(base.clone());
+        // same length; differs in the last byte / in a byte of the last partial 16-KiB block / in the first byte
+        let mut a = base.clone();
+        *a.last_mut().unwrap() ^= 1;
+        keys.push(a);
+        let mut b = base.clone();
+        let at = (len / 16384) * 16384;
+        let at = if at >= len { len - 2 } else { at };
+        b[at] ^= 2;
+        keys.push(b);
+        let mut c = base.clone();
+        c[0] ^= 4;
+        keys.push(c);
+    }
+    if kt == "string" {
+        for k in keys.iter_mut() {
+            for x in k.iter_mut() {
+                *x = b' ' + (*x % 95);
+            }
+        }
+        keys.sort();
+        keys.dedup();
+    }
+    let n = keys.len();
+    let kind = if kt == "string" { 1 } else { 0 };
+    let mut ops = Vec::new();
+    let mut order: Vec<usize> = (0..n).collect();
+    for i in (1..n).rev() {
+        order.swap(i, rng.below(i as u64 + 1) as usize);
+    }
+    ops.push(Op::BulkPut(order.iter().map(|&k| (k, ValSpec { len: 10 + k as u32, seed: k as u32, kind })).collect()));
+    ops.push(Op::Len);
+    ops.push(Op::BulkGet((0..n).collect()));
+    ops.push(Op::PutIter(order.iter().rev().map(|&k| (k, ValSpec { len: 40 + k as u32, seed: 100 + k as u32, kind })).collect()));
+    ops.push(Op::BulkGet((0..n).rev().collect()));
+    ops.push(Op::BulkDel((0..n).step_by(2).collect()));
+    ops.push(Op::Len);
+    ops.push(Op::BulkGet((0..n).collect()));
+    for k in (0..n).step_by(2) {
+        ops.push(Op::Put(k, ValSpec { len: 5, seed: 1, kind }));
+    }
+    ops.push(Op::BulkGet((0..n).collect()));
+    History { kt: kt.into(), cfg: default_bufs(Buckets::Size(1)), keys, ops, origin: format!("c14 long keys differing in their tails, one chain, {kt}") }
+}
+
 pub fn c14(a: &Args) -> Ctx {
     let mut ctx = Ctx::new("C14", &["C14"], &a.replay_dir, &a.shard_name());
     let ed = edges();
@@ -1045,6 +1127,20 @@ pub fn c14(a: &Args) -> Ctx {
         ctx.count("exact_fit_chain_histories", 1);
         let mon = Mon { final_sweep: true, ..Default::default() };
         if run_and_record(a, &h, &mon, &mut ctx, "xf") {
+            return ctx;
+        }
+    }
+    if a.shard % 5 == 3 {
+        let h = c14_bulk_load_history(&mut rng, KT_NAMES[(a.shard / 5) % 5], &ed);
+        ctx.count("bulk_load_histories", 1);
+        if run_and_record(a, &h, &Mon { final_sweep: true, ..Default::default() }, &mut ctx, "bl") {
+            return ctx;
+        }
+    }
+    if a.shard % 5 == 4 {
+        let h = c14_long_tail_history(&mut rng, if (a.shard / 5) % 2 == 0 { "bytes" } else { "string" });
+        ctx.count("long_tail_histories", 1);
+        if run_and_record(a, &h, &Mon::default(), &mut ctx, "lt") {
             return ctx;
         }
     }
